@@ -296,6 +296,61 @@ Section Presc.
   Definition presc_tbl : list erow := map presc_row S.
 End Presc.
 
+(* ---------- decode_async: the same decoder shapes, read with `.await`; no length calls on the reader object, no countdown,
+   no retention statement (`_unknown_fields: LinkedBytes::new()` in the construction of a keeping struct): what GenAsync.v
+   models, and the structural content of finding F-12a ---------- *)
+Inductive arow :=
+| ANone
+| AStruct (dec : dstruct)
+| AUnion (dec : dunion)
+| AEnum                                          (* let value = read_i32().await?; TryFrom *)
+| ANewtype (dec : rop).
+
+Definition norm_arow (r : arow) : arow :=
+  match r with
+  | ANone => ANone
+  | AStruct d => AStruct (norm_ds d)
+  | AUnion d => AUnion (norm_du d)
+  | AEnum => AEnum
+  | ANewtype d => ANewtype (norm_rop d)
+  end.
+
+Section PrescAsync.
+  Variable S : schema.
+  Variable cfg_keep : bool.
+
+  Definition presc_dstruct_async (fs : list field) (keep : bool) : dstruct :=
+    let kk := (cfg_keep && keep)%bool in
+    let ifs := indexed 0 fs in
+    mkDS false
+         (map (fun f => if const_dflt f then IConst (is_opt f) else INone) fs)
+         false false false LNo LNo LNo
+         (map (fun q => mkArm (f_id (snd q)) (ttype_of_ty S (f_ty (snd q))) (fst q)
+                              (is_opt (snd q) || negb (const_dflt (snd q)))%bool (presc_rop (f_ty (snd q))) false) ifs)
+         LCall false
+         (map fst (filter (fun q => (negb (is_opt (snd q)) && no_dflt (snd q))%bool) ifs))
+         (map (fun q => (fst q, is_opt (snd q))) (filter (fun q => late_dflt (snd q)) ifs))
+         (map (fun q => (EmptyString, fst q)) ifs)
+         kk.
+
+  Definition presc_dunion_async (vs : list (Z * ty)) (void_ok : bool) : dunion :=
+    mkDU false LNo LNo
+         (map (fun q => mkUArm (fst q) EmptyString (presc_rop (snd q)) LNo None)
+              (filter (fun q => negb (is_void (resolve S (snd q)))) vs))
+         LCall false void_ok.
+
+  Definition presc_arow (d : decl) : arow :=
+    match d with
+    | DStruct fs keep _ => AStruct (presc_dstruct_async fs keep)
+    | DUnion vs void_ok _ => AUnion (presc_dunion_async vs void_ok)
+    | DEnum _ => AEnum
+    | DTypedef t => ANewtype (presc_rop t)
+    end.
+End PrescAsync.
+
+Definition aops_match (S : schema) (cfg_keep : bool) (emitted : list arow) : Prop :=
+  map norm_arow emitted = map (presc_arow S cfg_keep) S.
+
 (* S: schema.txt restricted to the types the configuration emits (a configuration emits a subset of the corpus) *)
 Definition ops_match (S : schema) (cfg_keep : bool) (emitted : list erow) : Prop :=
   map norm_row emitted = presc_tbl S cfg_keep /\ forallb names_ok emitted = true.
